@@ -76,6 +76,8 @@ def matrix(tier):
             for label, second in variants:
                 ops = head + [["rec", scope, kind, n("r1"), dict(full), attrs1, via], ["rec", scope, kind, n("r1"), second, attrs2, via]]
                 yield {"profile": "json", "ops": ops, "collisions": [], "misses": 0, "cell": [kind, scope, label]}
+                if label.startswith("omit") or label == "same":
+                    yield {"profile": "json", "ops": ops, "collisions": [], "misses": 0, "touch": True, "cell": [kind, scope, label, "read-first"]}
 
 
 def _expand(case):
@@ -241,6 +243,10 @@ def check(case, ctx):
                 if c.get_record(QualifiedName(NA, "nothing%d" % i)):
                     items.append(_it("lookup_of_absent_identifier_found_something"))
         ctx.count("absent_lookups_before_unified")
+    if case.get("misses", 0) % 2 or case.get("touch"):
+        from ..touch import readonly_touch
+        readonly_touch(d, 0, foreign_lookups=False)      # a document whose records have been read (args, formal_attributes ...)
+        ctx.count("records_read_before_unified")
     before = snapshot(d)
     try:
         u = d.unified()
